@@ -54,7 +54,7 @@ class ScriptPeer(object):
 
 
 class Chain(object):
-  def __init__(self, client_id):
+  def __init__(self, client_id, iface=None):
     from scales.constants import SinkProperties
     from scales.loadbalancer.zookeeper import Endpoint
     from scales.thriftmux.sink import ClientIdInterceptorSink, ThriftMuxMessageSerializerSink, SocketTransportSink
@@ -71,7 +71,8 @@ class Chain(object):
     for a, b in zip(provs, provs[1:]):
       a.next_provider = b
     props = {SinkProperties.Endpoint: Endpoint('h0', 1000), SinkProperties.Label: 'svc',
-             SinkProperties.ServiceInterface: self.H.Iface}
+             SinkProperties.ServiceInterface: iface or self.H.Iface}
+    self.iface = iface or self.H.Iface
     self.top = provs[0].CreateSink(props)
     s = self.top
     while s.next_sink is not None:
@@ -93,11 +94,11 @@ class Chain(object):
       self.net.fire(evs[0], 'ok')
     vloop.run_ready()
 
-  def call(self, name, arg, props, deadline, with_event=False):
+  def call(self, name, arg, props, deadline, with_event=False, method='hi'):
     from scales.message import MethodCallMessage, Deadline
     from scales.observable import Observable
     from scales.sink import ClientMessageSinkStack
-    msg = MethodCallMessage(self.H.Iface, 'hi', (arg,), {})
+    msg = MethodCallMessage(self.iface, method, (arg,) if method == 'hi' else tuple(arg), {})
     for k, v in props.items():
       msg.properties[k] = v
     if deadline is not None:
@@ -297,6 +298,52 @@ def check_interleave():
   return {'n': n, 'keys': n, 'viol': viol, 'sample': {'interleave_runs': n}}
 
 
+def check_two_services():
+  """Two ThriftMux clients for two different interfaces (same method names, different signatures, both with service
+  inheritance) alive in one process: every ordered pair of calls; the Tdispatch body must end with exactly the Thrift call
+  that was supplied, encoded with its own interface's argument struct and message type."""
+  from thrift.Thrift import TMessageType
+  from .c14 import two_service_cases, vsvc, wsvc, Handler
+  VSvc, VBase, T = vsvc()
+  WSvc, WBase = wsvc()
+  vc, wc = two_service_cases()
+  viol = []
+  n = 0
+  for first in vc + wc:
+    for second in (wc if first[0] == 'v' else vc):
+      world.reset()
+      chains = {'v': Chain('c', VSvc.Iface), 'w': Chain('c', WSvc.Iface)}
+      procs = {'v': VSvc.Processor, 'w': WSvc.Processor}
+      for pos, case in enumerate((first, second)):
+        fam, method, args, oneway, value = case
+        frames, _, _ = chains[fam].call('%s%d' % (fam, pos), args, {}, None, method=method)
+        n += 1
+        bad = None
+        ds = [f for f in frames if f[0] == M.T_DISPATCH]
+        if len(ds) != 1:
+          bad = 'the peer decoded %d Tdispatch frames (%r)' % (len(ds), chains[fam].peer.errors[:1])
+        else:
+          try:
+            body = M.decode_tdispatch(ds[0][2])
+            h = Handler()
+            h.value = value
+            reply, hdr = peers.thrift_process(procs[fam], h, body['payload'])
+            if hdr[0] != method or h.calls != [(method, args)]:
+              bad = 'the Tdispatch body decodes to %s%r, the caller passed %s%r' % (hdr[0], h.calls, method, args)
+            elif hdr[1] != (TMessageType.ONEWAY if oneway else TMessageType.CALL):
+              bad = 'Thrift message type %d for a %s method' % (hdr[1], 'oneway' if oneway else 'two-way')
+          except Exception as e:  # noqa
+            bad = 'the Tdispatch body does not decode with the %s interface: %r' % (fam, e)
+        if bad:
+          viol.append({'clause': 'C13.two-services', 'message': 'two ThriftMux clients in one process, %s: %s.%s%r: %s'
+                       % ('first call' if pos == 0 else 'after %s.%s on the other client' % (first[0], first[1]), fam, method, args, bad),
+                       'sig': {'method': method}})
+          break
+      if len(viol) >= 3:
+        return {'n': n, 'keys': n, 'viol': viol, 'sample': None}
+  return {'n': n, 'keys': n, 'viol': viol, 'sample': {'two_services': n}}
+
+
 def thrift_reply(H, value):
   from thrift.protocol.TBinaryProtocol import TBinaryProtocol
   from thrift.transport.TTransport import TMemoryBuffer
@@ -420,6 +467,7 @@ def main(tier, seed):
     out.append(explore.pmap('vt.checks.c13', 'check_discards', [(12,)], pool, seed)[0])
     out.append(explore.pmap('vt.checks.c13', 'check_replies', [()], pool, seed)[0])
     out.append(explore.pmap('vt.checks.c13', 'check_interleave', [()], pool, seed)[0])
+    out.append(explore.pmap('vt.checks.c13', 'check_two_services', [()], pool, seed)[0])
     nreq = sum(o['n'] for o in out)
     rep.part('frames through the real sinks', engine='E', cases=nreq, context_dicts=len(ctxs), client_ids=CLIENT_IDS,
              deadlines=deadlines, strings=[s[:8] for s in STRS])
@@ -447,6 +495,7 @@ def main(tier, seed):
   return rep.finish(
     rule='full product of client id x caller-property dictionaries (0-2 entries over 5 strings incl. empty, non-ASCII, 300 chars) x '
          'deadline x argument, each sent through the real sink chain and decoded by the independent codec and the generated Processor; '
+         'two clients for two interfaces with equally named methods in one process, every ordered pair of calls; '
          'discards after post-write timeouts; every reply shape through the real receive path; header round trip for the reply types '
          '{Rdispatch, Rerr, BAD_Rerr, Rping} x 125 tag byte patterns and all tags below 2^18 (thorough: all 2^24 tags)', exhaustive=True)
 
